@@ -15,6 +15,7 @@ import JoblibModel.IOUtil
 * `reduce <a.ptr> <a.shape> <a.strides> <a.itemsize> <m.ptr> <m.shape> <m.strides> <m.itemsize> <m.offset> <a_c> <a_f> <m_f>`
       → `offset=<o> order=<C|F> strides=<list|None> tbl=<n|None>`
 * `elem <…same 12 fields…> <idx>` → `rebuilt=<file offset> original=<file offset>`
+* `forward <type is ndarray/memmap 0|1> <backed 0|1> <hasobject 0|1> <max_nbytes|-> <nbytes>` → `reuse-backing` | `dump-and-memmap` | `plain-pickle`
 * `tables` → the generated constants
 Anything else → `bad-op`. -/
 open JoblibModel JoblibModel.ArrayFormat JoblibModel.Generated JoblibModel.IOUtil
@@ -157,6 +158,14 @@ def handle (line : String) : String :=
             ++ " original=" ++ toString (originalElemOffset a m mo idx)
       | none => "bad-op"
     | _, _ => "bad-op"
+  | ["forward", rt, bk, ho, mx, nb] =>
+    match bool? rt, bool? bk, bool? ho, optNat? mx, nb.toNat? with
+    | some rt, some bk, some ho, some mx, some nb =>
+      (match forwardReduce rt bk ho mx nb with
+       | .reuseBacking => "reuse-backing"
+       | .dumpAndMemmap => "dump-and-memmap"
+       | .plainPickle => "plain-pickle")
+    | _, _, _, _, _ => "bad-op"
   | ["tables"] =>
     "tables align=" ++ toString numpyArrayAlignmentBytes ++ " buffer=" ++ toString bufferSize
       ++ " pad=" ++ toString padValue
